@@ -589,3 +589,5 @@ def check(ctx, run):  # noqa: F811
         if not ok:
             run.fail(Finding("C02.R9", init.qualname, f"{short}: the stored features are not the given feature objects in the given order", "the container feeds the model other inputs than the ones it was created with",
                              file=str(prog.modules[init.module].path), line=init.node.lineno))
+    from ..ctors import exports_rule
+    exports_rule(ctx, run, "C02.R8", ['pfhedge.features'])
